@@ -1,11 +1,11 @@
-(* Persist/PInvSem.v — port of Core/DInvSem.v to the persist-mode model: when may a memo be
+(* Persist/LInvSem.v — port of Core/DInvSem.v to the persist-mode model: when may a memo be
    marked verified now (edge walk or durability short-cut), and when is a freshly computed memo
    ok, including what every observer of the query is owed, and that stamps never decrease
    ([frame_changed_lb]). *)
 From Salsa Require Import Base.
 From Salsa.Kern Require Import CoreK CoreKFacts.
 From Salsa.Core Require Import Model Spec SpecProofs Inv DurSem.
-From Salsa.Persist Require Import Model PSem PWp PInv.
+From Salsa.Persist Require Import Model PSem PWp LInv.
 
 Section Sem.
 Variable prog : qkey -> CM.body.
@@ -13,18 +13,18 @@ Variable rank : qkey -> nat.
 Hypothesis Hrank : calls_below prog rank.
 Variable NF : nat.
 Hypothesis Hbound : forall q, (rank q < NF)%nat.
-Variable pf : qkey -> bool.
+Variable fm : bool.
 Variable F : ghost.
 Notation E := (E prog NF).
 Notation tr := (tr prog NF).
 Notation envat := (envat prog NF).
 Notation durge := (durge prog NF).
 Notation clos := (clos prog NF).
-Notation dmemo_ok := (fun H D => dmemo_ok prog NF pf H D F).
-Notation DInv := (fun H D => DInv prog NF pf H D F).
+Notation dmemo_ok := (fun H D => dmemo_ok prog NF fm H D F).
+Notation DInv := (fun H D => DInv prog NF fm H D F).
 Notation obs_pre := (obs_pre prog NF).
 Notation obs_ok := (obs_ok prog NF).
-Notation good := (good prog NF pf).
+Notation good := (good prog NF fm).
 Notation dext := (fun H D => dext prog NF H D F).
 Notation sle := (fun s => sle s F).
 Notation prov := (fun H s => prov prog NF H s F).
@@ -52,7 +52,7 @@ Lemma never_now H D s a d :
 Proof.
   intros HI Ha Hle Hd.
   apply (durge_stable prog rank Hrank NF Hbound H D 3 a (cur s) d (cur s));
-    [lia | apply (stable_never prog NF pf H D F s a HI Ha) | exact Hd | exact Hle | lia].
+    [lia | apply (stable_never prog NF fm H D F s a HI Ha) | exact Hd | exact Hle | lia].
 Qed.
 
 (* two revisions that answer the reads of q at a alike give the same run *)
@@ -76,6 +76,27 @@ Proof.
   - unfold tr, Inv.tr. rewrite Ht'. apply in_or_app; right; left; reflexivity.
 Qed.
 
+(* flat mode: a query of level >= 1 reads no input at all; it is the same at every revision *)
+Lemma low_never H D a k : (forall r i, D r i = 0) -> 1 <= k ->
+  forall n d, (rank d < n)%nat -> durge H D a k d ->
+  forall w, tr H w d = tr H a d /\ E H w d = E H a d /\ durge H D w 3 d.
+Proof.
+  intros HD Hk. induction n as [|n IH]; intros d Hn Hd w; [inversion Hn|].
+  assert (Hag : agree_on (envat H a) (envat H w) (tr H a d)).
+  { intros x Hx. destruct x as [i | d' | c |]; cbn.
+    - pose proof (durge_in _ _ _ _ _ _ _ _ Hd Hx) as Hle. rewrite HD in Hle. lia.
+    - symmetry. apply (IH d'); [|eapply durge_q; eassumption].
+      pose proof (tr_calls prog rank Hrank NF H _ _ _ Hx). lia.
+    - assert (k = 0); [|lia]. apply (durge_untr _ _ _ _ _ _ _ _ Hd Hx). right; eauto.
+    - reflexivity. }
+  destruct (same_run H a w d Hag) as [Htr HE]. split; [exact Htr|]. split; [exact HE|].
+  constructor; rewrite Htr.
+  - intros i Hi. pose proof (durge_in _ _ _ _ _ _ _ _ Hd Hi) as Hle. rewrite HD in Hle. lia.
+  - intros d' Hd'. apply (IH d'); [|eapply durge_q; eassumption].
+    pose proof (tr_calls prog rank Hrank NF H _ _ _ Hd'). lia.
+  - intros x Hx Hu. assert (k = 0); [|lia]. apply (durge_untr _ _ _ _ _ _ _ _ Hd Hx Hu).
+Qed.
+
 (* ---------------------------------------------------------------- marking a memo verified now *)
 Lemma revalidate_ok H D s q m :
   DInv H D s -> d_memo s q = Some m ->
@@ -86,8 +107,7 @@ Lemma revalidate_ok H D s q m :
   (m_untracked m = false ->
    forall d, In (RQ d) (tr H (m_verified m) q) -> ~ In (EQ d) (m_edges m) ->
      good H D s (m_edges m) (cur s) d) ->
-  (forall d md, In (EQ d) (m_edges m) -> clos H (cur s) q d -> d_memo s d = Some md ->
-     cur s <= m_verified md \/ cconst prog NF H (m_verified md) (cur s) d) ->
+  (m_dur m = 0 -> forall d md, In (EQ d) (m_edges m) -> d_memo s d = Some md -> cur s <= m_verified md) ->
   (forall d md, clos H (cur s) q d -> d <> q -> d_memo s d = Some md ->
      E H (cur s) d = E H (m_verified md) d /\ m_dur m <= m_dur md) ->
   let m' := reverify m (cur s) in
@@ -105,27 +125,25 @@ Proof.
   assert (Hall : forall g w k, obs_ok H D s g w k -> obs_ok H D (store s q m') g w k).
   { intros g w k Ho. apply obs_store; [reflexivity | exact Ho|]. intros Hcl Hp. apply (Hobs g w k Ho Hcl Hp). }
   assert (Hfin : DInv H D (store s q m') /\ dext H D s (store s q m')).
-  assert (Hphi : forall c0, PInv.phi s F q = Some c0 -> c0 <= m_changed m').
-  { intros c0 Hc0. unfold PInv.phi in Hc0. rewrite Hm in Hc0. injection Hc0 as <-. cbn. lia. }
-  { apply (DInv_store prog NF pf H D F s q m' HI); [reflexivity | | exact Hobs | | exact Hphi | left; exists m; split; [exact Hm | reflexivity]].
-    - destruct Hok as [a b c d e f f' h i st j k].
+  assert (Hphi : forall c0, LInv.phi s F q = Some c0 -> c0 <= m_changed m').
+  { intros c0 Hc0. unfold LInv.phi in Hc0. rewrite Hm in Hc0. injection Hc0 as <-. cbn. lia. }
+  { apply (DInv_store prog NF fm H D F s q m' HI); [reflexivity | | exact Hobs | | exact Hphi].
+    - destruct Hok as [a b c d e f g h i st j k].
       constructor; cbn [m' reverify m_val m_verified m_changed m_dur m_untracked m_edges];
-        rewrite ?cur_store; unfold PInv.prov; rewrite ?Htr'; auto.
+        rewrite ?cur_store; unfold LInv.prov; rewrite ?Htr'; auto.
       + pose proof (inv_cur _ _ _ _ _ _ _ HI). lia.
       + intros x Hx. rewrite HE. apply b; exact Hx.
-      + intros Hu0 d0 Hd0 Hn. apply (good_mono prog NF pf H D s); [apply N.le_refl | exact Hall | | apply Hgood; assumption].
-        intros e0 me0 He0. unfold store in He0; cbn in He0. unfold upd in He0.
-        destruct (key_eqb_spec q e0) as [<- | Hne1]; [right; injection He0 as <-; cbn; lia | left; exact He0].
+      + intros Hu0 d0 Hd0 Hn. apply (good_mono prog NF fm H D s); [apply N.le_refl | exact Hall | apply Hgood; assumption].
       + apply (prov_mono prog NF H s (store s q m') F q (m_verified m) (m_changed m)); [reflexivity | | exact st].
         intros d0 c0. apply phi_store. exact Hphi.
       + intros d0 md Hd0 Hmd _. unfold store in Hmd; cbn in Hmd. unfold upd in Hmd.
         destruct (key_eqb_spec q d0) as [<- | Hne].
         * injection Hmd as <-. split; [reflexivity | cbn; lia].
         * apply (Hclos d0 md Hd0); [congruence | exact Hmd].
-      + intros d0 md Hd0 Hcl0 Hmd. unfold store in Hmd; cbn in Hmd. unfold upd in Hmd.
+      + intros Hz d0 md Hd0 Hmd. unfold store in Hmd; cbn in Hmd. unfold upd in Hmd.
         destruct (key_eqb_spec q d0) as [<- | Hne].
         * exfalso. pose proof (reach_rank prog rank Hrank q q (f q Hd0)). lia.
-        * apply (Hsync d0 md Hd0 Hcl0 Hmd).
+        * apply (Hsync Hz d0 md Hd0 Hmd).
     - intros m0 Hm0 Hv0. rewrite Hm in Hm0. injection Hm0 as <-.
       split; [|cbn; lia]. intros _. unfold m'. rewrite <- Hv0. symmetry. apply reverify_same. }
   destruct Hfin as [A B]. split; [exact A|]. split; [exact B | exact HE].
@@ -155,7 +173,7 @@ Proof.
   - assert (Hk : 1 <= m_dur m).
     { destruct (N.eq_dec (m_dur m) 0) as [H0 | H0]; [|lia].
       rewrite H0 in Hlc. unfold lcs in Hlc. rewrite lc_zero in Hlc. unfold cur in *. lia. }
-    pose proof (stable_now prog NF pf H D F s (m_dur m) (m_verified m) HI Hlc) as Hw.
+    pose proof (stable_now prog NF fm H D F s (m_dur m) (m_verified m) HI Hlc) as Hw.
     pose proof (mo_durge _ _ _ _ _ _ _ _ _ Hok) as Hdg.
     assert (Hst : forall d, durge H D (m_verified m) (m_dur m) d ->
               tr H (cur s) d = tr H (m_verified m) d /\ E H (cur s) d = E H (m_verified m) d /\
@@ -172,62 +190,11 @@ Proof.
       * reflexivity.
     + intros i Hi. apply (Hw i); [apply (durge_in _ _ _ _ _ _ _ _ Hdg Hi) | lia | lia].
     + apply (Hst q Hdg).
-    + (* what was flattened away: constant in the window, observers at the current revision *)
-      intros Hu0.
-      assert (Hre : forall n d, (rank d < n)%nat -> good H D s (m_edges m) (m_verified m) d ->
-                clos H (m_verified m) q d -> good H D s (m_edges m) (cur s) d).
-      { induction n as [|n IH]; intros d Hn Hg Hcl; [inversion Hn|].
-        inversion Hg as [v0 d0 rho kd Ho Hv Hun Hi Hl Hq0]; subst v0 d0.
-        assert (Hq : forall d', In (RQ d') (tr H rho d) -> ~ In (EQ d') (m_edges m) -> good H D s (m_edges m) (m_verified m) d')
-          by (intros d' A B; apply (good_weaken prog NF pf H D s _ _ rho d' (Hq0 d' A B) Hv)).
-        pose proof (ob_order _ _ _ _ _ _ _ _ Ho) as (_ & Hr2).
-        pose proof (durge_clos _ _ _ _ _ _ _ _ Hdg Hcl) as Hdd.
-        destruct (durge_stable prog rank Hrank NF Hbound H D (m_dur m) (m_verified m) (cur s) d rho Hk Hw Hdd Hv Hr2)
-          as (Htr_r & _ & _).
-        destruct (Hst d Hdd) as (Htr_c & _ & _).
-        assert (Htr : tr H (cur s) d = tr H rho d) by congruence.
-        apply (good_exp prog NF pf H D s (m_edges m) (cur s) d (cur s) 0).
-        - constructor.
-          + split; [apply (inv_cur _ _ _ _ _ _ _ HI) | apply N.le_refl].
-          + apply (durge_zero prog rank Hrank NF H D).
-          + lia.
-          + intros x mx Hx Hmx _. split; [|lia].
-            apply (clos_stable prog rank Hrank NF Hbound H D (m_dur m) (m_verified m) (cur s) d (cur s) Hk Hw Hdd Ho3 (N.le_refl _)) in Hx.
-            assert (Hqx : clos H (m_verified m) q x) by (eapply clos_trans; eassumption).
-            pose proof (durge_clos _ _ _ _ _ _ _ _ Hdg Hqx) as Hdx.
-            destruct (mo_obs _ _ _ _ _ _ _ _ _ Hok x mx Hqx Hmx) as [A _];
-              [right; exists (m_dur m); split; assumption|].
-            rewrite <- A. apply (Hst x Hdx).
-        - apply N.le_refl.
-        - intros y Hy. rewrite Htr in Hy. apply (Hun y Hy).
-        - intros i Hi0. rewrite Htr in Hi0. apply (Hi i Hi0).
-        - (* a leaf: its memo is at least as recent, or it is constant up to now *)
-          intros e me He HeL Hpe Hme. rewrite Htr in He.
-          pose proof (mo_order _ _ _ _ _ _ _ _ _ (inv_memo _ _ _ _ _ _ _ HI e me Hme)) as (_ & _ & Hve).
-          assert (Hqe : clos H (m_verified m) q e) by (eapply clos_right; [exact Hcl | rewrite <- Htr_r; exact He]).
-          pose proof (durge_clos _ _ _ _ _ _ _ _ Hdg Hqe) as Hde.
-          pose proof (cconst_stable prog rank Hrank NF Hbound H D (m_dur m) (m_verified m) (cur s) e Hk Hw Hde) as Hcc.
-          right. destruct (N.le_gt_cases (m_verified m) (m_verified me)) as [Hle | Hgt].
-          + apply (cconst_win prog NF H (m_verified m) (m_verified me) (cur s) e Hcc Hle Hve).
-          + destruct (Hl e me He HeL Hpe Hme) as [A | A]; [lia|].
-            pose proof (cconst_win prog NF H (m_verified m) rho (cur s) e Hcc Hv Hr2) as Hcc2.
-            apply (cconst_trans prog NF H (m_verified me) rho (cur s) e A Hcc2); lia.
-        - intros d' Hd' HnL. rewrite Htr in Hd'.
-          pose proof (tr_calls prog rank Hrank NF H _ _ _ Hd') as Hrk.
-          apply (IH d' ltac:(lia) (Hq d' Hd' HnL)).
-          eapply clos_right; [exact Hcl|]. rewrite <- Htr_r. exact Hd'. }
-      intros d Hd Hn.
-      apply (Hre (S (rank d)) d (le_n _) (mo_q _ _ _ _ _ _ _ _ _ Hok Hu0 d Hd Hn)). apply clos_one. exact Hd.
-    + intros d md Hd Hcl Hmd.
-      apply (clos_stable prog rank Hrank NF Hbound H D (m_dur m) (m_verified m) (cur s) q (cur s) Hk Hw Hdg Ho3 (N.le_refl _)) in Hcl.
-      pose proof (durge_clos _ _ _ _ _ _ _ _ Hdg Hcl) as Hdd.
-      pose proof (cconst_stable prog rank Hrank NF Hbound H D (m_dur m) (m_verified m) (cur s) d Hk Hw Hdd) as Hcc.
-      pose proof (mo_order _ _ _ _ _ _ _ _ _ (inv_memo _ _ _ _ _ _ _ HI d md Hmd)) as (_ & _ & Hvd).
-      destruct (mo_sync _ _ _ _ _ _ _ _ _ Hok d md Hd Hcl Hmd) as [Hle | Hold].
-      * right. apply (cconst_win prog NF H (m_verified m) (m_verified md) (cur s) d Hcc Hle Hvd).
-      * right. destruct (N.le_gt_cases (m_verified m) (m_verified md)) as [Hle | Hgt].
-        -- apply (cconst_win prog NF H (m_verified m) (m_verified md) (cur s) d Hcc Hle Hvd).
-        -- apply (cconst_trans prog NF H (m_verified md) (m_verified m) (cur s) d Hold Hcc); lia.
+    + intros _ d Hd Hn. destruct (mo_flat _ _ _ _ _ _ _ _ _ Hok) as [Hf | Hdir].
+      * apply (good_never prog NF fm H D s _ _ d (m_verified m) (m_dur m) Hf Hk Ho3).
+        apply (durge_q _ _ _ _ _ _ _ _ Hdg Hd).
+      * exfalso. apply Hn. apply Hdir. exact Hd.
+    + intros Hz. lia.
     + intros d md Hd Hdq Hmd.
       apply (clos_stable prog rank Hrank NF Hbound H D (m_dur m) (m_verified m) (cur s) q (cur s) Hk Hw Hdg Ho3 (N.le_refl _)) in Hd.
       pose proof (durge_clos _ _ _ _ _ _ _ _ Hdg Hd) as Hdd.
@@ -315,7 +282,7 @@ Proof.
     - destruct (cv_in _ _ _ Hcv i Hx) as (_ & A & _). lia.
     - destruct Hs as (c' & Hc' & Hle).
       destruct (cv_q _ _ _ Hcv d Hx) as (md0 & Hmd0 & _ & _ & A & _).
-      unfold PInv.phi in Hc'. rewrite Hmd0 in Hc'. injection Hc' as <-. lia.
+      unfold LInv.phi in Hc'. rewrite Hmd0 in Hc'. injection Hc' as <-. lia.
     - destruct (cv_cell _ _ _ Hcv (RCell cc) Hx) as (_ & A & _); [right; eauto | lia].
     - destruct (cv_cell _ _ _ Hcv RTouch Hx) as (_ & A & _); [left; reflexivity | lia]. }
   destruct (first_changed_is_read_again (prog q) (envat H rho) (envat H (cur s)))
@@ -346,13 +313,13 @@ Qed.
 
 (* the stamp that q has now is at most the stamp of a completed frame *)
 Lemma phi_frame_lb H D s q fr c0 :
-  DInv H D s -> covers s (tr H (cur s) q) fr -> PInv.phi s F q = Some c0 -> c0 <= fr_changed fr.
+  DInv H D s -> covers s (tr H (cur s) q) fr -> LInv.phi s F q = Some c0 -> c0 <= fr_changed fr.
 Proof.
-  intros HI Hcv Hc0. unfold PInv.phi in Hc0.
+  intros HI Hcv Hc0. unfold LInv.phi in Hc0.
   destruct (d_memo s q) as [o|] eqn:Ho.
   - injection Hc0 as <-. pose proof (inv_memo _ _ _ _ _ _ _ HI q o Ho) as Hok.
     apply (frame_changed_lb H D s q fr (m_verified o) (m_changed o) (m_dur o) HI Hcv).
-    + apply (obs_of_memo prog NF pf H D F s q o Hok).
+    + apply (obs_of_memo prog NF fm H D F s q o Hok).
     + pose proof (mo_order _ _ _ _ _ _ _ _ _ Hok). lia.
     + apply (mo_stamp _ _ _ _ _ _ _ _ _ Hok).
   - destruct (F q) as [[rho c]|] eqn:HF; [|discriminate]. cbn in Hc0. injection Hc0 as <-.
@@ -397,15 +364,15 @@ Proof.
     - intros d Hd. destruct (Hcallee d Hd) as (md & _ & _ & _ & Hle & Hdd).
       eapply durge_mono; [exact Hle | exact Hdd].
     - intros x Hx Hu. apply (cv_cell _ _ _ Hcv x Hx Hu). }
-  assert (Hmono : forall c0, PInv.phi s F q = Some c0 -> c0 <= m_changed m').
+  assert (Hmono : forall c0, LInv.phi s F q = Some c0 -> c0 <= m_changed m').
   { intros c0 Hc0. cbn [m' fresh_memo m_changed].
     destruct Hch as [-> | (o & ov & Ho & _ & _ & -> & _)].
     - apply (phi_frame_lb H D s q fr c0 HI Hcv Hc0).
-    - subst old. unfold PInv.phi in Hc0. rewrite Ho in Hc0. injection Hc0 as <-. lia. }
+    - subst old. unfold LInv.phi in Hc0. rewrite Ho in Hc0. injection Hc0 as <-. lia. }
   assert (Hch_fr : ch <= fr_changed fr).
   { destruct Hch as [-> | (o & ov & Ho & _ & _ & -> & _)]; [lia|].
-    subst old. apply (phi_frame_lb H D s q fr (m_changed o) HI Hcv). unfold PInv.phi. rewrite Ho. reflexivity. }
-  apply (DInv_store prog NF pf H D F s q m' HI); [reflexivity | | | | exact Hmono |].
+    subst old. apply (phi_frame_lb H D s q fr (m_changed o) HI Hcv). unfold LInv.phi. rewrite Ho. reflexivity. }
+  apply (DInv_store prog NF fm H D F s q m' HI); [reflexivity | | | | exact Hmono].
   - (* the new memo is ok *)
     constructor; cbn [m' fresh_memo m_val m_verified m_changed m_dur m_untracked m_edges]; rewrite ?cur_store.
     + lia.
@@ -415,7 +382,7 @@ Proof.
       destruct (cv_q _ _ _ Hcv d Hd) as (md & _ & _ & _ & _ & _ & Hin). exact Hin.
     + intros x Hx Hu. apply (cv_cell _ _ _ Hcv x Hx Hu).
     + intros d Hd. apply reach_one. apply (calls_of_trace _ _ _ (cv_edges_q _ _ _ Hcv d Hd)).
-    + intros _ d Hd. destruct (cv_q _ _ _ Hcv d Hd) as (md & _ & _ & _ & _ & _ & Hin). exact Hin.
+    + right. intros d Hd. destruct (cv_q _ _ _ Hcv d Hd) as (md & _ & _ & _ & _ & _ & Hin). exact Hin.
     + exact Hdg.
     + apply (cv_dur3 _ _ _ Hcv).
     + (* the stamp has a provenance in the new run *)
@@ -434,7 +401,7 @@ Proof.
         destruct (Hcallee d1 Hin1) as (md1 & Hmd1 & Hvd1 & _ & Hle1 & _).
         destruct (obs_of_callee H D s d1 md1 d md HI Hmd1 Hvd1 Hd1 Hmd) as (HEd & Hdd).
         split; [exact HEd | lia].
-    + intros d md Hd _ Hmd. left. unfold store in Hmd; cbn in Hmd. unfold upd in Hmd.
+    + intros _ d md Hd Hmd. unfold store in Hmd; cbn in Hmd. unfold upd in Hmd.
       pose proof (cv_edges_q _ _ _ Hcv d Hd) as Hrd.
       destruct (key_eqb_spec q d) as [<- | Hne].
       * pose proof (tr_calls prog rank Hrank NF H _ _ _ Hrd). lia.
@@ -459,7 +426,7 @@ Proof.
       assert (Hk : 1 <= k0).
       { destruct (N.eq_dec k0 0) as [-> | H0]; [|lia].
         unfold lcs in Hlck. rewrite lc_zero in Hlck. unfold cur in *. lia. }
-      pose proof (stable_now prog NF pf H D F s k0 w HI Hlck) as Hw.
+      pose proof (stable_now prog NF fm H D F s k0 w HI Hlck) as Hw.
       destruct (durge_stable prog rank Hrank NF Hbound H D k0 w (cur s) q (cur s) Hk Hw Hdk Hg3 (N.le_refl _))
         as (Htr & HE & _).
       split; [symmetry; exact HE|].
@@ -509,22 +476,10 @@ Proof.
     split; [intros Hx; exfalso; apply Hx; apply Hnv; [congruence | exact Hv0]|].
     cbn [m' fresh_memo m_dur].
     apply (frame_dur_lb H D s q fr q (m_verified m0) (m_dur m0) HI Hcv
-             (obs_of_memo prog NF pf H D F s q m0 (inv_memo _ _ _ _ _ _ _ HI q m0 Hm0))); rewrite ?Hv0; auto.
+             (obs_of_memo prog NF fm H D F s q m0 (inv_memo _ _ _ _ _ _ _ HI q m0 Hm0))); rewrite ?Hv0; auto.
     + apply clos_refl.
     + intros d md _ Hmd. left.
       pose proof (mo_order _ _ _ _ _ _ _ _ _ (inv_memo _ _ _ _ _ _ _ HI d md Hmd)). lia.
-  - (* computed now: the recorded durability is the minimum over what was read *)
-    right. cbn [m' fresh_memo m_dur]. unfold fresh_lb. rewrite cur_store.
-    assert (Hsame_memo : forall d, In (RQ d) (tr H (cur s) q) -> d_memo (store s q m') d = d_memo s d).
-    { intros d Hd. unfold store; cbn. apply upd_other. intros <-.
-      pose proof (tr_calls prog rank Hrank NF H _ _ _ Hd). lia. }
-    split.
-    + intros d Hd. rewrite (Hsame_memo d Hd).
-      destruct (cv_q _ _ _ Hcv d Hd) as (md & A & B & C & _). exists md. split; [exact A|]. split; assumption.
-    + intros k0 Hk0 Hi Hq Hu. apply (cv_lb _ _ _ Hcv k0 Hk0).
-      * intros i Hi0. rewrite <- HDcur. apply Hi. exact Hi0.
-      * intros d Hd md Hmd. apply (Hq d md Hd). rewrite (Hsame_memo d Hd). exact Hmd.
-      * exact Hu.
 Qed.
 
 (* ---------------------------------------------------------------- the edge walk succeeded *)
@@ -544,9 +499,7 @@ Definition leaf_ok H D (s0 s : db) (q : qkey) (m : memo) (e : edge) : Prop :=
       (forall g w k, obs_ok H D s0 g w k -> m_verified m <= w -> clos H w g d ->
                      E H w d = E H (cur s) d) /\
       (clos H (m_verified m) q d ->
-         durge H D (cur s) (m_dur m) d /\ exists md, d_memo s d = Some md /\ m_dur m <= m_dur md) /\
-      (* the stamp it had when the walk started is old *)
-      (forall c0, PInv.phi s0 F d = Some c0 -> c0 <= m_verified m)
+         durge H D (cur s) (m_dur m) d /\ exists md, d_memo s d = Some md /\ m_dur m <= m_dur md)
   end.
 
 Section Walked.
@@ -585,16 +538,19 @@ Definition seen_as_now (d : qkey) : Prop :=
 Lemma good_seen : forall n d, (rank d < n)%nat -> good H D s0 L v d -> seen_as_now d.
 Proof.
   induction n as [|n IH]; intros d Hn Hg; [inversion Hn|].
-  inversion Hg as [v0 d0 rho k Ho Hv Hun Hi Hl Hq0]; subst v0 d0.
-  assert (Hq : forall d', In (RQ d') (tr H rho d) -> ~ In (EQ d') L -> good H D s0 L v d')
-    by (intros d' A B; apply (good_weaken prog NF pf H D s0 L v rho d' (Hq0 d' A B) Hv)).
+  inversion Hg as [d0 a k Hf Hk Ha Hd | d0 rho k Ho Hv Hun Hi Hq]; subst d0.
+  - intros g w k' _ _ _.
+    pose proof (inv_lowD _ _ _ _ _ _ _ HI Hf) as HD0.
+    destruct (low_never H D a k HD0 Hk (S (rank d)) d (le_n _) Hd w) as (A1 & A2 & _).
+    destruct (low_never H D a k HD0 Hk (S (rank d)) d (le_n _) Hd c) as (B1 & B2 & _).
+    split; congruence.
   - pose proof (ob_order _ _ _ _ _ _ _ _ Ho) as (Hr1 & Hr2). rewrite Hcur in Hr2.
     assert (Hchild : forall d' g w k', In (RQ d') (tr H rho d) -> obs_ok H D s0 g w k' -> v <= w ->
                clos H w g d' -> E H w d' = E H c d').
     { intros d' g w k' Hd' Hog Hvw Hcl.
       pose proof (tr_calls prog rank Hrank NF H _ _ _ Hd') as Hrk.
       destruct (edge_in_dec (EQ d') L) as [HinL | HnL].
-      - destruct (Hleaf _ HinL) as (_ & A & _ & _). apply (A g w k' Hog Hvw Hcl).
+      - destruct (Hleaf _ HinL) as (_ & A & _). apply (A g w k' Hog Hvw Hcl).
       - apply (IH d' ltac:(lia) (Hq d' Hd' HnL) g w k' Hog Hvw Hcl). }
     (* its own revision *)
     assert (Hown : tr H c d = tr H rho d /\ E H c d = E H rho d).
@@ -615,12 +571,12 @@ Proof.
 Qed.
 
 Let Hok0 : dmemo_ok H D s0 q m := inv_memo _ _ _ _ _ _ _ HI0 q m Hm0.
-Let Hobq : obs_ok H D s0 q v (m_dur m) := obs_of_memo prog NF pf H D F s0 q m Hok0.
+Let Hobq : obs_ok H D s0 q v (m_dur m) := obs_of_memo prog NF fm H D F s0 q m Hok0.
 
 Lemma walked_read d : In (RQ d) (tr H v q) -> E H v d = E H c d.
 Proof.
   intros Hd. destruct (edge_in_dec (EQ d) L) as [HinL | HnL].
-  - destruct (Hleaf _ HinL) as (_ & A & _ & _). apply (A q v (m_dur m) Hobq (N.le_refl _)).
+  - destruct (Hleaf _ HinL) as (_ & A & _). apply (A q v (m_dur m) Hobq (N.le_refl _)).
     apply clos_one. exact Hd.
   - apply (good_seen (S (rank d)) d (le_n _) (mo_q _ _ _ _ _ _ _ _ _ Hok0 Hu d Hd HnL)
              q v (m_dur m) Hobq (N.le_refl _)).
@@ -647,9 +603,14 @@ Proof.
   induction n as [|n IH]; intros x Hn Hg Hqx d md Hcl Hmd; [inversion Hn|].
   pose proof (mo_order _ _ _ _ _ _ _ _ _ (inv_memo _ _ _ _ _ _ _ HI d md Hmd)) as (Hmo1 & Hmo2 & Hmo3).
   fold c in Hmo3.
-  inversion Hg as [v0 d0 rho k Ho Hv Hun Hi Hl Hq0]; subst v0 d0.
-  assert (Hq : forall d', In (RQ d') (tr H rho x) -> ~ In (EQ d') L -> good H D s0 L v d')
-    by (intros d' A B; apply (good_weaken prog NF pf H D s0 L v rho d' (Hq0 d' A B) Hv)).
+  inversion Hg as [d0 a k Hf Hk Ha Hd | d0 rho k Ho Hv Hun Hi Hq]; subst d0.
+  - (* no input below x *)
+    pose proof (inv_lowD _ _ _ _ _ _ _ HI Hf) as HD0.
+    destruct (low_never H D a k HD0 Hk (S (rank x)) x (le_n _) Hd c) as (_ & _ & H3).
+    pose proof (durge_clos _ _ _ _ _ _ _ _ H3 Hcl) as H3d.
+    assert (H13 : 1 <= 3) by lia.
+    destruct (low_never H D c 3 HD0 H13 (S (rank d)) d (le_n _) H3d (m_verified md)) as (_ & A & _).
+    symmetry. exact A.
   - pose proof (good_seen (S (rank x)) x (le_n _) Hg) as Hseen.
     destruct (Hseen q v (m_dur m) Hobq (N.le_refl _) Hqx) as [Htrv HEv].
     destruct (Hseen x rho k Ho Hv (clos_refl _ _ _ _ _)) as [Htrr HEr].
@@ -662,11 +623,11 @@ Proof.
       destruct (N.le_gt_cases (m_verified md) v) as [Hle | Hgt].
       * destruct (mo_obs _ _ _ _ _ _ _ _ _ Hok0 d md Hqx Hmd0) as [A _]; [left; fold v; lia|].
         fold v in A. rewrite <- A. symmetry. exact HEv.
-      * destruct (Hseen d (m_verified md) (m_dur md) (obs_of_memo prog NF pf H D F s0 d md Hokd))
+      * destruct (Hseen d (m_verified md) (m_dur md) (obs_of_memo prog NF fm H D F s0 d md Hokd))
           as [_ A]; [lia | apply clos_refl|]. symmetry. exact A.
     + rewrite <- Htrr in Hin.
       destruct (edge_in_dec (EQ d1) L) as [HinL | HnL].
-      * destruct (Hleaf _ HinL) as ((md1 & Hmd1 & Hv1) & _ & _ & _).
+      * destruct (Hleaf _ HinL) as ((md1 & Hmd1 & Hv1) & _ & _).
         apply (obs_of_callee H D s d1 md1 d md HI Hmd1 Hv1 Hd1 Hmd).
       * pose proof (tr_calls prog rank Hrank NF H _ _ _ Hin) as Hrk.
         apply (IH d1 ltac:(lia) (Hq d1 Hin HnL)); [|exact Hd1 | exact Hmd].
@@ -678,13 +639,12 @@ Lemma reroot : forall n x, (rank x < n)%nat -> good H D s0 L v x -> clos H v q x
   good H D s L c x.
 Proof.
   induction n as [|n IH]; intros x Hn Hg Hqx; [inversion Hn|].
-  inversion Hg as [v0 d0 rho k Ho Hv Hun Hi Hl Hq0]; subst v0 d0.
-  assert (Hq : forall d', In (RQ d') (tr H rho x) -> ~ In (EQ d') L -> good H D s0 L v d')
-    by (intros d' A B; apply (good_weaken prog NF pf H D s0 L v rho d' (Hq0 d' A B) Hv)).
+  inversion Hg as [d0 a k Hf Hk Ha Hd | d0 rho k Ho Hv Hun Hi Hq]; subst d0.
+  - apply (good_never prog NF fm H D s L c x a k Hf Hk); [rewrite Hcur in Ha; exact Ha | exact Hd].
   - pose proof (good_seen (S (rank x)) x (le_n _) Hg) as Hseen.
     destruct (Hseen q v (m_dur m) Hobq (N.le_refl _) Hqx) as [Htrv HEv].
     destruct (Hseen x rho k Ho Hv (clos_refl _ _ _ _ _)) as [Htrr HEr].
-    apply (good_exp prog NF pf H D s L c x c 0).
+    apply (good_exp prog NF fm H D s L c x c 0).
     + constructor.
       * split; [apply (inv_cur _ _ _ _ _ _ _ HI) | apply N.le_refl].
       * apply (durge_zero prog rank Hrank NF H D).
@@ -694,140 +654,25 @@ Proof.
     + apply N.le_refl.
     + intros y Hy. rewrite <- Htrr in Hy. apply (Hun y Hy).
     + intros i Hi0. rewrite <- Htrr in Hi0. apply (Hi i Hi0).
-    + (* a leaf was walked: its memo is verified now *)
-      intros e me He HeL _ Hme. left.
-      destruct (Hleaf _ HeL) as ((me' & Hme' & Hve') & _). rewrite Hme in Hme'. injection Hme' as <-. fold c in Hve'. lia.
     + intros d' Hd' HnL. rewrite <- Htrr in Hd'.
       pose proof (tr_calls prog rank Hrank NF H _ _ _ Hd') as Hrk.
       apply (IH d' ltac:(lia) (Hq d' Hd' HnL)).
       eapply clos_right; [exact Hqx|]. rewrite Htrv, <- Htrr. exact Hd'.
 Qed.
 
-(* the stamp that a flattened dependency had when the walk started is old: by its provenance,
-   from the leaves up *)
-Lemma stamp_le : forall n d, (rank d < n)%nat -> good H D s0 L v d -> clos H v q d ->
-  forall c0, PInv.phi s0 F d = Some c0 -> c0 <= v.
-Proof.
-  induction n as [|n IH]; intros d Hn Hg Hqd c0 Hc0; [inversion Hn|].
-  pose proof (mo_order _ _ _ _ _ _ _ _ _ Hok0) as (Hv1 & _ & _). fold v in Hv1.
-  pose proof (good_seen (S (rank d)) d (le_n _) Hg) as Hseen.
-  destruct (Hseen q v (m_dur m) Hobq (N.le_refl _) Hqd) as [Htrv _].
-  inversion Hg as [v0 d0 rho k Ho Hvr Hun Hi Hl Hq0]; subst v0 d0.
-  assert (Hq : forall d', In (RQ d') (tr H rho d) -> ~ In (EQ d') L -> good H D s0 L v d')
-    by (intros d' A B; apply (good_weaken prog NF pf H D s0 L v rho d' (Hq0 d' A B) Hvr)).
-  destruct (Hseen d rho k Ho Hvr (clos_refl _ _ _ _ _)) as [Htrr _].
-  (* the entry: a memo of s0, or a dropped one *)
-  assert (Hentry : exists r k', c0 <= r /\ obs_ok H D s0 d r k' /\ prov H s0 d r c0).
-  { unfold PInv.phi in Hc0. destruct (d_memo s0 d) as [md|] eqn:Hmd.
-    - injection Hc0 as <-. pose proof (inv_memo _ _ _ _ _ _ _ HI0 d md Hmd) as Hokd.
-      exists (m_verified md), (m_dur md). split; [pose proof (mo_order _ _ _ _ _ _ _ _ _ Hokd); lia|].
-      split; [apply (obs_of_memo prog NF pf H D F s0 d md Hokd) | apply (mo_stamp _ _ _ _ _ _ _ _ _ Hokd)].
-    - destruct (F d) as [[r cc]|] eqn:HF; [|discriminate]. cbn in Hc0. injection Hc0 as <-.
-      destruct (inv_ghost _ _ _ _ _ _ _ HI0 d r cc Hmd HF) as (A & B & C0).
-      exists r, 0. split; [exact A|]. split; assumption. }
-  destruct Hentry as (r & k' & Hcr & Hor & Hpv).
-  destruct (N.le_gt_cases r v) as [Hle | Hgt]; [lia|].
-  destruct (Hseen d r k' Hor ltac:(lia) (clos_refl _ _ _ _ _)) as [Htr_r _].
-  destruct Hpv as [A | (x & Hx & Hs)]; [lia|].
-  rewrite Htr_r, <- Htrr in Hx.
-  destruct x as [i | d' | cc |]; cbn in Hs.
-  - pose proof (Hleaf _ (Hi i Hx)) as Hle. cbn in Hle. fold v in Hle.
-    rewrite <- (ext_in _ _ _ _ _ _ _ Hext) in Hs. lia.
-  - destruct Hs as (c' & Hc' & Hle').
-    pose proof (tr_calls prog rank Hrank NF H _ _ _ Hx) as Hrk.
-    destruct (edge_in_dec (EQ d') L) as [HinL | HnL].
-    + destruct (Hleaf _ HinL) as (_ & _ & _ & B). specialize (B c' Hc'). fold v in B. lia.
-    + assert (Hqd' : clos H v q d').
-      { eapply clos_right; [exact Hqd|]. rewrite Htrv, <- Htrr. exact Hx. }
-      pose proof (IH d' ltac:(lia) (Hq d' Hx HnL) Hqd' c' Hc'). lia.
-  - exfalso. apply (Hun _ Hx). right; eauto.
-  - exfalso. apply (Hun _ Hx). left; reflexivity.
-Qed.
-
-(* what is owed to the memos of the flattened dependencies: the recorded durability of q's memo
-   is below theirs — for a memo that was there when the walk started because its stamp is old,
-   for one that was marked verified during the walk because it has the durability it had, for
-   one that was computed during the walk because its durability is the minimum over its reads *)
-Lemma floor_dur : forall n d, (rank d < n)%nat -> good H D s0 L v d -> clos H v q d ->
-  forall md, d_memo s d = Some md -> m_dur m <= m_dur md.
-Proof.
-  induction n as [|n IH]; intros d Hn Hg Hqd md Hmd; [inversion Hn|].
-  pose proof (good_seen (S (rank d)) d (le_n _) Hg) as Hseen.
-  destruct (Hseen q v (m_dur m) Hobq (N.le_refl _) Hqd) as [Htrv _].
-  assert (Hold : forall md0, d_memo s0 d = Some md0 -> m_dur m <= m_dur md0).
-  { intros md0 Hmd0.
-    assert (Hc : m_changed md0 <= v).
-    { apply (stamp_le (S (rank d)) d (le_n _) Hg Hqd). unfold PInv.phi. rewrite Hmd0. reflexivity. }
-    apply (mo_obs _ _ _ _ _ _ _ _ _ Hok0 d md0 Hqd Hmd0). left. exact Hc. }
-  pose proof (mo_order _ _ _ _ _ _ _ _ _ (inv_memo _ _ _ _ _ _ _ HI d md Hmd)) as (_ & _ & Hvd). fold c in Hvd.
-  destruct (N.eq_dec (m_verified md) c) as [Hvc | Hvc].
-  2:{ apply Hold. apply (ext_old _ _ _ _ _ _ _ Hext d md Hmd). rewrite Hcur. lia. }
-  destruct (ext_new _ _ _ _ _ _ _ Hext d md Hmd) as [(md0 & Hmd0 & Hd0 & _) | [Hcal Hlb]]; [rewrite Hcur; exact Hvc | |].
-  { rewrite Hd0. apply Hold. exact Hmd0. }
-  inversion Hg as [v0 d0 rho k Ho Hvr Hun Hi Hl Hq0]; subst v0 d0.
-  assert (Hq : forall d', In (RQ d') (tr H rho d) -> ~ In (EQ d') L -> good H D s0 L v d')
-    by (intros d' A B; apply (good_weaken prog NF pf H D s0 L v rho d' (Hq0 d' A B) Hvr)).
-  destruct (Hseen d rho k Ho Hvr (clos_refl _ _ _ _ _)) as [Htrr _].
-  pose proof (mo_durge _ _ _ _ _ _ _ _ _ Hok0) as Hdg. fold v in Hdg.
-  pose proof (durge_clos _ _ _ _ _ _ _ _ Hdg Hqd) as Hdd.
-  pose proof (ob_order _ _ _ _ _ _ _ _ Ho) as (_ & Hr2). rewrite Hcur in Hr2.
-  fold c in Hlb. apply Hlb.
-  - apply (mo_dur3 _ _ _ _ _ _ _ _ _ Hok0).
-  - intros i Hi0. rewrite <- Htrv in Hi0.
-    pose proof (durge_in _ _ _ _ _ _ _ _ Hdd Hi0) as Hle.
-    rewrite Htrv, <- Htrr in Hi0.
-    pose proof (mo_order _ _ _ _ _ _ _ _ _ Hok0) as (_ & _ & Hvc0). fold v in Hvc0. rewrite Hcur in Hvc0.
-    destruct (in_same i v (Hi i Hi0) (N.le_refl _) Hvc0) as [_ B]. rewrite <- B. exact Hle.
-  - intros d' md' Hd' Hmd'. rewrite <- Htrr in Hd'.
-    pose proof (tr_calls prog rank Hrank NF H _ _ _ Hd') as Hrk.
-    assert (Hqd' : clos H v q d').
-    { eapply clos_right; [exact Hqd|]. rewrite Htrv, <- Htrr. exact Hd'. }
-    destruct (edge_in_dec (EQ d') L) as [HinL | HnL].
-    + destruct (Hleaf _ HinL) as (_ & _ & C & _). destruct (C Hqd') as (_ & md'' & Hmd'' & Hle).
-      rewrite Hmd' in Hmd''. injection Hmd'' as <-. exact Hle.
-    + apply (IH d' ltac:(lia) (Hq d' Hd' HnL) Hqd' md' Hmd').
-  - intros x Hx Hux. exfalso. rewrite <- Htrr in Hx. apply (Hun x Hx Hux).
-Qed.
-
-(* the level now: q's closure is what it was, and its inputs have the durabilities they had *)
-Lemma durge_now : forall n d, (rank d < n)%nat -> good H D s0 L v d -> clos H v q d ->
-  durge H D c (m_dur m) d.
-Proof.
-  induction n as [|n IH]; intros d Hn Hg Hqd; [inversion Hn|].
-  pose proof (good_seen (S (rank d)) d (le_n _) Hg) as Hseen.
-  destruct (Hseen q v (m_dur m) Hobq (N.le_refl _) Hqd) as [Htrv _].
-  inversion Hg as [v0 d0 rho k Ho Hvr Hun Hi Hl Hq0]; subst v0 d0.
-  assert (Hq : forall d', In (RQ d') (tr H rho d) -> ~ In (EQ d') L -> good H D s0 L v d')
-    by (intros d' A B; apply (good_weaken prog NF pf H D s0 L v rho d' (Hq0 d' A B) Hvr)).
-  destruct (Hseen d rho k Ho Hvr (clos_refl _ _ _ _ _)) as [Htrr _].
-  pose proof (mo_durge _ _ _ _ _ _ _ _ _ Hok0) as Hdg. fold v in Hdg.
-  pose proof (durge_clos _ _ _ _ _ _ _ _ Hdg Hqd) as Hdd.
-  pose proof (mo_order _ _ _ _ _ _ _ _ _ Hok0) as (_ & _ & Hvc0). fold v in Hvc0. rewrite Hcur in Hvc0.
-  constructor; rewrite <- Htrv.
-  - intros i Hi0. pose proof (durge_in _ _ _ _ _ _ _ _ Hdd Hi0) as Hle.
-    rewrite Htrv, <- Htrr in Hi0.
-    destruct (in_same i v (Hi i Hi0) (N.le_refl _) Hvc0) as [_ B]. rewrite <- B. exact Hle.
-  - intros d' Hd'. pose proof (tr_calls prog rank Hrank NF H _ _ _ Hd') as Hrk.
-    assert (Hqd' : clos H v q d') by (eapply clos_right; eassumption).
-    rewrite Htrv, <- Htrr in Hd'.
-    destruct (edge_in_dec (EQ d') L) as [HinL | HnL].
-    + destruct (Hleaf _ HinL) as (_ & _ & C & _). apply (C Hqd').
-    + apply (IH d' ltac:(lia) (Hq d' Hd' HnL) Hqd').
-  - intros x Hx Hux. apply (durge_untr _ _ _ _ _ _ _ _ Hdd Hx Hux).
-Qed.
-
 End Walked.
 
 (* Every recorded edge is unchanged since the memo was verified: the memo may be marked
-   verified now. *)
+   verified now.  The memo's durability is LOW, or its edges are its direct reads. *)
 Lemma deep_ok H D s0 s q m :
   DInv H D s0 -> DInv H D s -> dext H D s0 s ->
   d_memo s0 q = Some m -> d_memo s q = Some m -> m_untracked m = false ->
+  (m_dur m = 0 \/ forall d, In (RQ d) (tr H (m_verified m) q) -> In (EQ d) (m_edges m)) ->
   (forall e, In e (m_edges m) -> leaf_ok H D s0 s q m e) ->
   let m' := reverify m (cur s) in
   DInv H D (store s q m') /\ dext H D s (store s q m') /\ E H (cur s) q = E H (m_verified m) q.
 Proof.
-  intros HI0 HI Hext Hm0 Hm Hu Hleaf.
+  intros HI0 HI Hext Hm0 Hm Hu Hflat Hleaf.
   pose proof (inv_memo _ _ _ _ _ _ _ HI0 q m Hm0) as Hok0.
   pose proof (mo_order _ _ _ _ _ _ _ _ _ Hok0) as (Ho1 & Ho2 & Ho3).
   pose proof (mo_durge _ _ _ _ _ _ _ _ _ Hok0) as Hdg.
@@ -843,57 +688,32 @@ Proof.
   - (* the level now *)
     constructor; rewrite Htr.
     + intros i Hi. rewrite (Hinc i Hi). apply (durge_in _ _ _ _ _ _ _ _ Hdg Hi).
-    + intros d Hd. destruct (edge_in_dec (EQ d) (m_edges m)) as [HinL | HnL].
-      * destruct (Hleaf _ HinL) as (_ & _ & C & _). apply C. apply clos_one. exact Hd.
-      * apply (durge_now H D s0 s q m HI0 HI Hext Hm0 Hleaf (S (rank d)) d (le_n _)
-                 (mo_q _ _ _ _ _ _ _ _ _ Hok0 Hu d Hd HnL)).
-        apply clos_one. exact Hd.
+    + intros d Hd. destruct Hflat as [Hz | Hdir].
+      * rewrite Hz. apply (durge_zero prog rank Hrank NF H D).
+      * destruct (Hleaf _ (Hdir d Hd)) as (_ & _ & C). apply C. apply clos_one. exact Hd.
     + intros x Hx Hux. apply (durge_untr _ _ _ _ _ _ _ _ Hdg Hx Hux).
   - (* the cover from now on *)
-    intros _ d Hd HnL.
+    intros _ d Hd HnL. destruct Hflat as [Hz | Hdir]; [|exfalso; apply HnL; apply Hdir; exact Hd].
     apply (reroot H D s0 s q m HI0 HI Hext Hm0 Hleaf (S (rank d)) d (le_n _)
              (mo_q _ _ _ _ _ _ _ _ _ Hok0 Hu d Hd HnL)).
     apply clos_one. exact Hd.
-  - intros d md Hd _ Hmd. left. destruct (Hleaf _ Hd) as ((md' & Hmd' & Hv') & _).
+  - intros _ d md Hd Hmd. destruct (Hleaf _ Hd) as ((md' & Hmd' & Hv') & _).
     rewrite Hmd in Hmd'. injection Hmd' as <-. lia.
   - (* everything below *)
-    assert (Hbelow : forall n x, (rank x < n)%nat -> good H D s0 (m_edges m) (m_verified m) x ->
-              clos H (m_verified m) q x ->
-              forall d md, clos H (cur s) x d -> d_memo s d = Some md -> m_dur m <= m_dur md).
-    { induction n as [|n IH]; intros x Hn Hg Hqx d md Hcl Hmd; [inversion Hn|].
-      pose proof (good_seen H D s0 s q m HI Hext Hleaf (S (rank x)) x (le_n _) Hg) as Hseen.
-      destruct (Hseen q (m_verified m) (m_dur m) (obs_of_memo prog NF pf H D F s0 q m Hok0) (N.le_refl _) Hqx) as [Htrv _].
-      inversion Hcl as [f | f d1 e Hin Hd1]; subst.
-      - apply (floor_dur H D s0 s q m HI0 HI Hext Hm0 Hleaf (S (rank d)) d (le_n _) Hg Hqx md Hmd).
-      - rewrite <- Htrv in Hin.
-        assert (Hqd1 : clos H (m_verified m) q d1) by (eapply clos_right; eassumption).
-        pose proof (tr_calls prog rank Hrank NF H _ _ _ Hin) as Hrk.
-        inversion Hg as [v0 d0 rho k Ho Hvr Hun Hi Hl Hq0]; subst v0 d0.
-        assert (Hq : forall d', In (RQ d') (tr H rho x) -> ~ In (EQ d') (m_edges m) -> good H D s0 (m_edges m) (m_verified m) d')
-          by (intros d' A B; apply (good_weaken prog NF pf H D s0 _ _ rho d' (Hq0 d' A B) Hvr)).
-        destruct (Hseen x rho k Ho Hvr (clos_refl _ _ _ _ _)) as [Htrr _].
-        destruct (edge_in_dec (EQ d1) (m_edges m)) as [HinL | HnL].
-        + destruct (Hleaf _ HinL) as ((md1 & Hmd1 & Hv1) & _ & C & _).
-          destruct (obs_of_callee H D s d1 md1 d md HI Hmd1 Hv1 Hd1 Hmd) as (_ & Hdd).
-          destruct (C Hqd1) as (_ & md1' & Hmd1' & Hle).
-          rewrite Hmd1 in Hmd1'. injection Hmd1' as <-. lia.
-        + assert (Hg1 : good H D s0 (m_edges m) (m_verified m) d1).
-          { apply Hq; [|exact HnL]. rewrite Htrr, <- Htrv. exact Hin. }
-          apply (IH d1 ltac:(lia) Hg1 Hqd1 d md Hd1 Hmd). }
     intros d md Hcl Hdq Hmd.
     inversion Hcl as [f | f d1 e Hin Hd1]; subst; [contradiction|].
     rewrite Htr in Hin.
     destruct (edge_in_dec (EQ d1) (m_edges m)) as [HinL | HnL].
-    + destruct (Hleaf _ HinL) as ((md1 & Hmd1 & Hv1) & _ & C & _).
+    + destruct (Hleaf _ HinL) as ((md1 & Hmd1 & Hv1) & _ & C).
       destruct (obs_of_callee H D s d1 md1 d md HI Hmd1 Hv1 Hd1 Hmd) as (HEd & Hdd).
       split; [exact HEd|].
+      destruct Hflat as [Hz | Hdir]; [lia|].
       destruct (C (clos_one _ _ _ _ _ _ Hin)) as (_ & md1' & Hmd1' & Hle).
       rewrite Hmd1 in Hmd1'. injection Hmd1' as <-. lia.
-    + pose proof (mo_q _ _ _ _ _ _ _ _ _ Hok0 Hu d1 Hin HnL) as Hg1.
-      split.
-      * apply (below_good H D s0 s q m HI0 HI Hext Hm0 Hleaf (S (rank d1)) d1 (le_n _)
-                 Hg1 (clos_one _ _ _ _ _ _ Hin) d md Hd1 Hmd).
-      * apply (Hbelow (S (rank d1)) d1 (le_n _) Hg1 (clos_one _ _ _ _ _ _ Hin) d md Hd1 Hmd).
+    + destruct Hflat as [Hz | Hdir]; [|exfalso; apply HnL; apply Hdir; exact Hin].
+      split; [|lia].
+      apply (below_good H D s0 s q m HI0 HI Hext Hm0 Hleaf (S (rank d1)) d1 (le_n _)
+               (mo_q _ _ _ _ _ _ _ _ _ Hok0 Hu d1 Hin HnL) (clos_one _ _ _ _ _ _ Hin) d md Hd1 Hmd).
 Qed.
 
 End Sem.
